@@ -139,15 +139,25 @@ pub fn c07_parts(quick: bool) -> (Vec<EwSpec>, Vec<Scenario>) {
     // (c) configuration pairs
     let pairs: Vec<(&str, usize, usize, usize, usize)> = vec![ // (name, client max_packet, client alloc, server max_packet, server alloc)
         ("equal", 10_000, 10_000, 10_000, 10_000), ("client-packet-too-big", 20_000, 20_000, 10_000, 10_000), ("server-packet-too-big", 5_000, 5_000, 10_000, 10_000),
-        ("both-fit-asymmetric", 3_000, 50_000, 40_000, 4_000), ("client-packet-just-fits", 10_000, 10_000, 10_000, 10_000 + 0), ("client-packet-one-over", 10_001, 20_000, 10_000, 10_000),
+        ("both-fit-asymmetric", 1_400, 6_000, 5_000, 2_000), ("client-packet-just-fits", 10_000, 10_000, 10_000, 10_000 + 0), ("client-packet-one-over", 10_001, 20_000, 10_000, 10_000),
     ];
     for (name, cp, ca, sp, sa) in pairs {
         let mut cfg = EwCfg::new(1);
         cfg.clients[0].max_packet_size = cp; cfg.clients[0].max_receive_alloc = ca; cfg.server.max_packet_size = sp; cfg.server.max_receive_alloc = sa;
+        // rates differ as well, so that every negotiated quantity has a distinct expected value
+        if name == "both-fit-asymmetric" { cfg.clients[0].max_send_rate = 500_000; cfg.clients[0].max_receive_rate = 300_000; cfg.server.max_send_rate = 400_000; cfg.server.max_receive_rate = 200_000; }
         let mismatch = cp > sa || sp > ca;
-        let script = if mismatch { vec![at(0, Act::Connect(0))] } else { vec![at(0, Act::Connect(0)), after_c(0, 1, Act::CSend(0, 0, SendMode::Reliable, cp)), after_s(0, 1, Act::SSend(0, 0, SendMode::Reliable, sp))] };
-        let mut env = EwEnv::basic(4, 120);
-        env.fates = DF_BASIC; env.fate_types = &[0, 1, 2, 3]; env.deltas = &[100]; env.fair_delta = 500;
+        // three maximum-size packets at once in each direction: together they exceed the peer's receive allocation in the asymmetric
+        // pairs, so the sender must pace them by the limit it was actually told
+        let script = if mismatch { vec![at(0, Act::Connect(0))] } else {
+            let mut v = vec![at(0, Act::Connect(0))];
+            v.push(after_c(0, 1, Act::CSend(0, 0, SendMode::Reliable, cp))); v.push(after_s(0, 1, Act::SSend(0, 0, SendMode::Reliable, sp)));
+            // once the first exchange has given both ends an RTT and a rate, a burst that would overrun the peer's allocation if the
+            // sender used any limit but the one it was told
+            if name == "both-fit-asymmetric" { for chn in 1..5u8 { v.push(after_c(0, 30, Act::CSend(0, chn, SendMode::Reliable, cp - chn as usize))); v.push(after_s(0, 30, Act::SSend(0, chn, SendMode::Reliable, sp - chn as usize))); } }
+            v };
+        let mut env = EwEnv::basic(4, 900);
+        env.fates = DF_BASIC; env.fate_types = &[0, 1, 2, 3]; env.deltas = &[100]; env.fair_delta = 100;
         scs.push(sc(&format!("C07.config.{}", name), &cfg, script, env, if quick { 1 } else { 2 }, o));
     }
     // (d) forged handshake frames: differential against the run without the forgery
